@@ -323,6 +323,9 @@ func (pk *PublicKey[E, S]) UnmarshalCBOR(data []byte) error {
 	if err != nil {
 		return errs.Wrap(err).WithMessage("could not unmarshal public key")
 	}
+	if dto == nil {
+		return encryption.ErrIsNil.WithMessage("PublicKey DTO is nil")
+	}
 	pkk, err := NewPublicKey(dto.H)
 	if err != nil {
 		return errs.Wrap(err).WithMessage("could not create public key from unmarshalled data")
